@@ -101,6 +101,52 @@ Theorem C08_replace_all_chain_closed : forall (ms : list (string * string)) (ran
   ~ In t (map fst ms).
 Proof. exact replace_all_chain_closed. Qed.
 
+(** the line processor calls the CAPPED driver [replace_all_c] (rounds abandoned once a round has
+    left more than 64 KiB); it is the function above whenever every text that is followed by
+    another round is within the cap ([rounds_within_cap], Proofs/MacroFacts.v, follows the
+    recursion of [replace_rounds]) ... *)
+Theorem C08_replace_all_c_small : forall ms s,
+  rounds_within_cap 64 ms s s -> replace_all_c ms s = replace_all ms s.
+Proof. exact replace_all_c_small. Qed.
+
+(** ... in particular when no macro matches ... *)
+Theorem C08_replace_all_c_no_change : forall ms s,
+  (forall m, In m ms -> macro_matches m s = false) -> replace_all_c ms s = s.
+Proof. exact replace_all_c_no_change. Qed.
+
+(** ... or when the first round ends on a text no macro matches (no length hypothesis) ... *)
+Theorem C08_replace_all_c_one_round : forall ms s r,
+  fst (apply_all ms s s false) = r ->
+  (forall m, In m ms -> macro_matches m r = false) ->
+  replace_all_c ms s = r /\ replace_all ms s = r.
+Proof. exact replace_all_c_one_round. Qed.
+
+(** ... so independent object-like macros are one simultaneous token substitution for the capped
+    driver too, whatever the length of the result *)
+Theorem C08_replace_all_c_independent : forall (ms : list (string * string)) s,
+  NoDup (map fst ms) -> (forall n v, In (n, v) ms -> wordy n) ->
+  (forall n v m, In (n, v) ms -> In m (map fst ms) -> existsb (String.eqb m) (tokens v) = false) ->
+  replace_all_c (map (fun nv => (fst nv, MObj (snd nv))) ms) s =
+  String.concat "" (map (fun t => match find (fun nv => String.eqb (fst nv) t) ms with
+                                  | Some nv => snd nv | None => t end) (tokens s)).
+Proof. exact replace_all_c_independent. Qed.
+
+(** chains need several rounds, hence the cap hypothesis *)
+Theorem C08_replace_all_c_chain : forall (ms : list (string * string)) (rank : string -> nat) s,
+  NoDup (map fst ms) -> (forall n v, In (n, v) ms -> wordy n) ->
+  (forall n v t, In (n, v) ms -> In t (tokens v) -> In t (map fst ms) -> rank t < rank n) ->
+  (forall n, In n (map fst ms) -> rank n < 64) ->
+  rounds_within_cap 64 (map (fun nv => (fst nv, MObj (snd nv))) ms) s s ->
+  replace_all_c (map (fun nv => (fst nv, MObj (snd nv))) ms) s = tsubst (expand_tok 64 ms) s.
+Proof. exact replace_all_c_chain. Qed.
+
+(** the cap does bite: a value mentioning its own name twice doubles the text at every round; the
+    capped driver stops after round 16 with 131071 characters *)
+Theorem C08_replace_all_c_cap_bites :
+  N.of_nat (String.length (replace_all_c [("A", MObj "A A")] "A")) = 131071%N /\
+  within_cap (replace_all_c [("A", MObj "A A")] "A") = false.
+Proof. split; [exact (proj1 replace_all_c_cap_bites) | exact (proj1 (proj2 replace_all_c_cap_bites))]. Qed.
+
 (** arguments are captured by position, nested parentheses (four levels) included *)
 Theorem C08_capture_args_nested : forall args rest, Forall arg_ok args -> args <> [] ->
   capture_args (S (String.length (String.concat "," args ++ ")" ++ rest))) (List.length args)
